@@ -855,7 +855,9 @@ def gen_base():
     if len(terms) != 1:
         raise TranslateError("the projection sites are not the same expression")
     L.append(f"Definition projected_point (x : vec) (a : float) (d lb ub : vec) : vec := {terms.pop()}.")
-    L.append("Definition projection_sites_src : list string := [" + "; ".join(coq_string(w + ": " + ast.unparse(c_)) + "%string" for w, c_, _ in sites) + "].")
+    # (the spelling of the local holding the step is free: it is shown as `_`)
+    L.append("Definition projection_sites_src : list string := [" + "; ".join(
+        coq_string(f"{w}: np.clip({st} + _ * d, {ast.unparse(c_.args[1])}, {ast.unparse(c_.args[2])})") + "%string" for w, c_, st in sites) + "].")
     # the call sites in main.py: is_boxed, the loop guard and the final test
     mt = ast.parse(_src("main.py"))
     mf = _func(mt, "minimize_lbfgsb")
